@@ -19,6 +19,24 @@ theorem C07_fragment_shape (v : Bytes) :
     (∀ c ∈ (chunks FRAG v).dropLast, c.length = FRAG) :=
   chunks_shape v
 
+/-- Uniqueness ("THE unique TLV8 byte string"): whatever fragments `cs` someone proposes for a
+    non-empty value — none empty, none longer than 255, all but the last exactly 255 — they are the
+    fragments the encoder emits, so the byte string the encoder emits for `(tag, cs.flatten)` is the only
+    one with the TLV8 shape that carries this value. -/
+theorem C07_unique (tag : UInt8) (cs : List Bytes) (hne : cs ≠ [])
+    (h1 : ∀ c ∈ cs, 1 ≤ c.length ∧ c.length ≤ FRAG)
+    (h2 : ∀ c ∈ cs.dropLast, c.length = FRAG) :
+    encode [(tag, cs.flatten)] = cs.flatMap fun c => tag :: UInt8.ofNat c.length :: c := by
+  rw [encode_eq_spec]
+  have hv : cs.flatten ≠ [] := by
+    intro e
+    obtain ⟨c, rest, rfl⟩ := List.exists_cons_of_ne_nil hne
+    have := h1 c (by simp)
+    have h0 : ((c :: rest).flatten).length = 0 := by rw [e]; rfl
+    rw [List.flatten_cons, List.length_append] at h0
+    omega
+  simp [specEncode, specEncodeItem, hv, chunks_unique cs h1 h2]
+
 /-- Round trip for every item list: decoding the encoding gives the values merged by type in
     first-occurrence order (what a dict-returning decoder can return at best). -/
 theorem C07_roundtrip (items : Items) : decode (encode items) [] = some (merge [] items) :=
@@ -48,5 +66,7 @@ example : encode [(1, [7, 8]), (1, [9]), (2, [])] = [1, 2, 7, 8, 1, 1, 9, 2, 0] 
 example : decode (encode [(1, [7, 8]), (1, [9]), (2, [])]) [] = some [(1, [7, 8, 9]), (2, [])] := by
   decide +kernel
 example : (encode [(5, List.replicate 510 1)]).length = 514 := by decide +kernel
+example : encode [(9, [[1, 2], [3]].flatten)] ≠ [[1, 2], [3]].flatMap (fun c => (9 : UInt8) :: UInt8.ofNat c.length :: c) := by
+  decide  -- a fragmentation that breaks the shape rule (first fragment not full) is NOT what the encoder emits
 
 end Hap.Tlv
